@@ -139,7 +139,7 @@ def make_lattice(m, rot=None):
     return Lattice(M)
 
 
-def make_traj(m, species, coords, time_step=2e-15, temperature=600.0, rot=None, **kw):
+def make_traj(m, species, coords, time_step=2e-15, temperature=600.0, rot=None, mode='auto', **kw):
     from gemdat.trajectory import Trajectory
     from pymatgen.core import Element
     species = [Element(s) if isinstance(s, str) else s for s in species]
@@ -153,9 +153,16 @@ def make_traj(m, species, coords, time_step=2e-15, temperature=600.0, rot=None, 
             coords = np.asfortranarray(coords)
         elif pick == 2:
             coords = np.ascontiguousarray(coords.transpose(2, 0, 1)).transpose(1, 2, 0)
-    return Trajectory(species=list(species), coords=coords,
-                      lattice=make_lattice(m, rot), time_step=time_step,
-                      metadata={'temperature': temperature}, **kw)
+    t = Trajectory(species=list(species), coords=coords,
+                   lattice=make_lattice(m, rot), time_step=time_step,
+                   metadata={'temperature': temperature}, **kw)
+    # internal representation is not part of the meaning either: a third of the trajectories are handed over in displacement mode
+    # (as they are after any displacement-based query), chosen deterministically from the content
+    if mode == 'auto' and 'coords_are_displacement' not in kw and coords.ndim == 3 and coords.shape[0] >= 2:
+        import zlib
+        if (zlib.crc32(np.ascontiguousarray(coords).tobytes()) // 4) % 3 == 0:
+            t.to_displacements()
+    return t
 
 
 def make_sites(m, frac, labels=None, species='Li', rot=None):
